@@ -262,7 +262,8 @@ def validate_task(task, seed, vectors=2):
 
 # ------------------------------------------------------------------ driver
 def _run_task(task):
-    res = run.run_entry(task.text, task.entry, task.judge, task.opts)
+    extra = [build.support_module(n) for n in task.opts.get('extra', ())]
+    res = run.run_entry(task.text, task.entry, task.judge, task.opts, extra_modules=extra)
     res = run.strip(res)
     res['tid'] = task.tid
     return res
